@@ -293,6 +293,33 @@ func runC15(col *Collector, tier string, seed int64) {
 		"c.toml": "[tasks.shared]\ncommand = [\"echo toml\"]\n[tasks.shared.env]\nK = \"t\"\n[tasks.tt]\ncommand = [\"true\"]\n",
 		"d.yaml": "tasks:\n  shared:\n    env: {M: z}\n  tj:\n    description: redefined in yaml\n",
 	}
+	// mappings under sections other than tasks / pipelines / contexts / watchers: variables, and a key taskctl does not know
+	for _, f := range []string{"yaml", "json", "toml"} {
+		seqDocs["v."+f] = map[string]string{
+			"yaml": "variables: {A: \"y\", B: \"y\"}\nx-meta:\n  owner: {name: y}\n",
+			"json": "{\"variables\": {\"B\": \"j\", \"C\": \"j\"}, \"x-meta\": {\"owner\": {\"team\": \"j\"}}}",
+			"toml": "[variables]\nC = \"t\"\nD = \"t\"\n[x-meta.owner]\nmail = \"t\"\n",
+		}[f]
+	}
+	for _, ord := range [][]string{{"v.yaml"}, {"v.json"}, {"v.yaml", "v.json"}, {"v.json", "v.yaml"}, {"v.toml", "v.yaml"}, {"v.yaml", "v.toml", "v.json"}, {"v.yaml", "b.yaml"}, {"v.json", "b.yaml", "v.yaml"}} {
+		var q []string
+		for _, f := range ord {
+			q = append(q, fmt.Sprintf("%q", f))
+		}
+		list := strings.Join(q, ", ")
+		mains := map[string]string{
+			"yaml":      "import: [" + list + "]\nvariables: {A: \"m\"}\n",
+			"json":      "{\"import\": [" + list + "], \"variables\": {\"A\": \"m\"}}",
+			"toml":      "import = [" + list + "]\n[variables]\nA = \"m\"\n",
+			"json-meta": "{\"import\": [" + list + "], \"x-meta\": {\"owner\": {\"name\": \"m\"}}}",
+			"toml-bare": "import = [" + list + "]\n",
+			"json-bare": "{\"import\": [" + list + "]}",
+		}
+		for mf, text := range mains {
+			format := strings.Split(mf, "-")[0]
+			add(loadCase{desc: "variables-only documents: imports " + strings.Join(ord, " then "), format: format, text: text, files: seqDocs}, "import-sequence-vars")
+		}
+	}
 	orders := [][]string{{"a.json", "b.yaml"}, {"b.yaml", "a.json"}, {"a.json", "d.yaml"}, {"a.json", "b.yaml", "c.toml"}, {"c.toml", "d.yaml", "a.json"}, {"b.yaml", "c.toml", "d.yaml"}, {"a.json", "c.toml", "b.yaml", "d.yaml"}}
 	for _, ord := range orders {
 		var q []string
@@ -351,6 +378,35 @@ func runC15(col *Collector, tier string, seed int64) {
 			envFileModelCase(col, c.envFile)
 		}
 	}
+	// every line over a small alphabet of the characters an env file gives a meaning to (or might), up to 4
+	// characters after `K=` and up to 5 as a whole line: quotes, '=', '#', blanks, backslash, '$'
+	envAlpha := []byte{'"', '\'', 'x', ' ', '=', '#', '\\', '$'}
+	var gen func(prefix string, n int, out *[]string)
+	gen = func(prefix string, n int, out *[]string) {
+		*out = append(*out, prefix)
+		if n == 0 {
+			return
+		}
+		for _, ch := range envAlpha {
+			gen(prefix+string(ch), n-1, out)
+		}
+	}
+	var vals, whole []string
+	gen("", 4, &vals)
+	gen("", 4, &whole)
+	batch := func(lines []string, mk func(string) string) {
+		for i := 0; i < len(lines); i += 64 {
+			var b strings.Builder
+			for j := i; j < i+64 && j < len(lines); j++ {
+				b.WriteString(mk(lines[j]))
+				b.WriteString("\n")
+			}
+			envFileModelCase(col, b.String())
+		}
+	}
+	kk := 0
+	batch(vals, func(v string) string { kk++; return fmt.Sprintf("K%d=%s", kk, v) })
+	batch(whole, func(l string) string { return l })
 	for _, shape := range []string{"null", "str", "num", "bool", "map", "list", "list:str", "list:str,str", "list:num", "list:null", "list:str,null", "list:list", "list:map", "list:bool,str"} {
 		importShapeCase(col, shape)
 	}
